@@ -55,9 +55,32 @@ def _obs_actions(clock):
     ]
 
 
+def _focus(t):
+    """steer a generated program towards the warm-up instant: an observing handler scheduled exactly at the
+    warm-up time (two priorities), one before it (root observations happen at construction time) and some after"""
+    prog, on, vals, k = t
+    if not on:
+        return prog
+    ck = prog["clock"]
+    start, warm = dec_ref(prog["rep"]["start"]), dec_ref(prog["rep"]["warmup"])
+    wt = start + warm
+    enc = (lambda x: [float(x).hex(), "s"]) if ck == "duration" else ((lambda x: float(x).hex()) if ck == "float" else int)
+    node = len(prog["nodes"])
+    prog["nodes"].append([["obs_t", fx(vals[0])], ["obs_p", fx(vals[1])], ["obs_c", k], ["obs_w", fx(1.0 + abs(k)), fx(vals[2])]])
+    one = {"float": fx(1.0), "int": 1, "duration": [fx(30.0), "s"]}[ck]
+    prog["nodes"].append([["obs_t", fx(vals[2])], ["obs_p", fx(vals[0])], ["rel", one, node + 1, 5], ["obs_c", 1]])
+    prog["root"] = [["obs_t", fx(vals[1])], ["obs_c", 2], ["obs_p", fx(vals[2])],
+                    ["abs_t", enc(wt), node, 5], ["abs_t", enc(wt), node, 3], ["abs_t", enc(wt), node + 1, 7],
+                    ["now", node, 5]] + prog["root"][:3]
+    return prog
+
+
 def strategy(tier):
-    prog = progs.program_strategy(max_nodes=12 if tier == "quick" else 24, illegal=False, cap=100,
+    base = progs.program_strategy(max_nodes=12 if tier == "quick" else 24, illegal=False, cap=100,
                                   extra_actions=_obs_actions, prio=st.integers(1, 9))
+    prog = st.tuples(base, st.sampled_from([True, True, False]),
+                     st.lists(st.one_of(st.sampled_from([0.0, 1.0, 2.0, 5.5]), st.floats(-20, 20)), min_size=3, max_size=3),
+                     st.integers(-2, 4)).map(_focus)
     return st.fixed_dictionaries({
         "prog": prog,
         "drive": st.sampled_from(["start", "start", "steps", "pause", "bounded"]),
@@ -271,7 +294,7 @@ def run_case(case):
                     exact = float(integ / (tend - t0))
                     gotm = h.model.stats["p"].weighted_mean()
                     scale = max(abs(v) for _, v in pk) or 1.0
-                    if not abs(gotm - exact) <= 1e-9 * scale * max(1, len(pk)):
+                    if not abs(gotm - exact) <= 1e-9 * scale * max(1, len(pk)) + 1e-300:   # (+ floor: subnormal values)
                         out.fail("persistent-mean-vs-exact-integral", {"got": gotm, "exact": exact, "n": len(pk)})
                     out.label("persistent-integral-checked")
         if published["bad"]:
